@@ -41,6 +41,10 @@ def bindItem (x : S) (item k j : Nat) : Option S :=
 def step (x : S) (w : List String) : Option (S × String × List String) :=
   match w with
   | ["run", _, _, _] => ok {}
+  | ["handover", h0, h1] =>
+    if !h0.startsWith "held0=" then ok {} else      -- the script line itself
+    -- the forced schedule was reached when both gates held their goroutine
+    if h0 == "held0=true" && h1 == "held1=true" then ok x ["forced_handover_schedule"] else ok x ["forced_handover_schedule_not_reached"]
   | ["prog", t, key, start] => do
     let t ← t.toNat?; let k ← kv key "key"; let s ← kv start "start"
     ok { x with prog := (t, (k, s == 1)) :: x.prog }
@@ -153,6 +157,7 @@ def step (x : S) (w : List String) : Option (S × String × List String) :=
     let t ← t.toNat?; let item ← kv item "item"; let n ← kv n "n"
     let (k, _) ← x.prog.lookup t
     let st := getSt x k
+    if x.awaiting.contains t then rej x "the work function returned unresolved and no resolve-not-called outcome was produced" else
     if x.items.lookup item != some (k, (st.threads t).next) then rej x "cleared an item that is not the runner's successor" else
     if (st.items (st.threads t).next).count != n then rej x s!"successor count: model {(st.items (st.threads t).next).count}" else
     match BB.Exclusive.step st (.clearNext t) with
@@ -171,6 +176,7 @@ def step (x : S) (w : List String) : Option (S × String × List String) :=
       match (st.threads t).outcome with
       | some r' => if r' == r then ok x (if r == 0 then ["outcome_resolve_not_called"] else ["outcome"]) else rej x s!"outcome: model {r'}"
       | none => ok { x with expect := (t, r) :: x.expect } ["outcome_before_hook"]
+  | ["overlap", key, n] => rej x s!"two work functions of one key overlap ({key} {n})"
   | ["otherkeysdone"] =>
     let st := getSt x 0
     let busy := x.prog.any (fun p => p.2.1 == 0 && ((st.threads p.1).pc == .working || (st.threads p.1).pc == .swapped || (st.threads p.1).pc == .running))
